@@ -33,6 +33,12 @@ fn check(def: &str, st: &str, files: &[Vec<&str>], aggregate: bool) -> Result<()
                 // the line that produced row number n (all lines when there are fewer rows)
                 let need = if n == 0 { 0 } else { p.iter().position(|r| *r >= n).unwrap_or(all.len()) as u64 };
                 if consumed > need { return Err(format!("{} LIMIT {} over {:?} consumed {} lines; its row number {} is produced by line {}", st, n, files, consumed, n, need)); }
+                // ... whether or not the rows are printed (DisplayOptions::print_result off: timing runs)
+                let quiet = run_opts(def, &format!("{} LIMIT {}", st, n), &files.iter().map(|f| join_lines(f)).collect::<Vec<_>>(), DisplayOptions { output_format: OutputFormat::Json, single_result: true, print_result: false });
+                match quiet { Outcome::Lines(printed, consumed_quiet) => {
+                        if !printed.is_empty() { return Err(format!("{} LIMIT {} with printing switched off printed {:?}", st, n, printed)); }
+                        if consumed_quiet > need { return Err(format!("{} LIMIT {} over {:?} with printing switched off consumed {} lines; its row number {} is produced by line {}", st, n, files, consumed_quiet, n, need)); } },
+                    other => return Err(format!("{} LIMIT {} with printing switched off: {:?}", st, n, other)) }
             }
         } else if consumed != all.len() as u64 { return Err(format!("{} LIMIT {} over {:?}: an aggregate query reads everything, {} of {} lines were read", st, n, files, consumed, all.len())); }
     }
